@@ -94,11 +94,19 @@ def one(parser, compiler, text, matcher, stop):
     try:
         d = parser.parse(I.StringScanner(text), matcher)
     except CompositeParserException as e:
-        return ('errs', [I.err_tuple(x) for x in e.errors])
+        return ('errs', [I.err_tuple(x) for x in e.errors], e)
     except ParserException as e:
         return ('err', [I.err_tuple(e)])
     except Exception as e:  # noqa: BLE001
         return ('exc', '%s: %s' % (type(e).__name__, e))
+    # asking for the result again (Parser.get_result is public) is a read: same document, nothing consumed
+    try:
+        frozen = json.dumps(d, sort_keys=True, default=repr)
+        again = parser.get_result()
+        if again != d or json.dumps(d, sort_keys=True, default=repr) != frozen or json.dumps(again, sort_keys=True, default=repr) != frozen:
+            return ('exc', 'Parser.get_result() after parse() returned does not give the same document again (or changes the one returned): %s' % (str(again)[:120],))
+    except Exception as e:  # noqa: BLE001
+        return ('exc', 'Parser.get_result() after parse(): %s: %s' % (type(e).__name__, e))
     d = dict(d)
     d['uri'] = 'u'
     before = copy.deepcopy(d)
@@ -157,10 +165,23 @@ def job_histories(first, h, config):
             acc.nontrivial += 1
             r = None
             live = []
+            live_errors = []
             for pos, i in enumerate(hist):
                 r = one(p, c, POOL[i], (None if (own_matcher == 'mixed' and pos == len(hist) - 1) else m), stop)
                 if r[0] == 'ok':
                     live.append((i, r[3]))
+                elif r[0] == 'errs':
+                    live_errors.append((i, r[2], list(r[1])))
+            for i, exc, was in live_errors:
+                try:
+                    now = [I.err_tuple(x) for x in exc.errors]
+                except Exception as e:  # noqa: BLE001
+                    now = '%s: %s' % (type(e).__name__, e)
+                if now != was:
+                    acc.violation('result-modified-later', {'kind': 'history', 'history': list(hist), 'config': config},
+                                  'the error raised for document %d (%s) lists other errors after later parses by the same parser' % (i, PERTURBS[i]),
+                                  observed=str(now)[:300], expected=str(was)[:300])
+                    break
             for i, (d, pk, frozen) in live:
                 if json.dumps([d, pk], sort_keys=True, default=repr) != frozen:
                     acc.violation('result-modified-later', {'kind': 'history', 'history': list(hist), 'config': config},
@@ -545,8 +566,18 @@ def replay(case):
         ig = IdGenerator()
         p, c, m = Parser(AstBuilder(ig)), Compiler(ig), (TokenMatcher(default) if own else None)
         r = None
+        kept = []
         for pos, i in enumerate(case['history']):
             r = one(p, c, POOL[i], (None if (own == 'mixed' and pos == len(case['history']) - 1) else m), stop)
+            if r[0] == 'errs':
+                kept.append((i, r[2], list(r[1])))
+            elif r[0] == 'ok':
+                kept.append((i, None, r[3]))
+        for i, exc, was in kept:
+            if exc is not None and [I.err_tuple(x) for x in exc.errors] != was:
+                return ['history %s: the error raised for document %d lists other errors after later parses' % (case['history'], i)]
+            if exc is None and json.dumps([was[0], was[1]], sort_keys=True, default=repr) != was[2]:
+                return ['history %s: the result returned for document %d was modified later' % (case['history'], i)]
         f = fresh(POOL[case['history'][-1]], default, stop, own)
         if r[:2] != f[:2] or r[0] in ('modified', 'exc'):
             return ['history %s: reused instances give %s, fresh instances %s' % (case['history'], _short(r)[:300], _short(f)[:300])]
